@@ -373,6 +373,7 @@ Proof.
       intros s0 m0 _ _ [= <-]. split; cbn; intros H; try discriminate; repeat (destruct H as [H|H]; [discriminate|]); contradiction.
     + eexists. split; [reflexivity|exact E'].
   - (* IRCFromClient *)
+    destruct (is_retry (session, 0%N) cmid sv) eqn:Hretry; [eexists; split; [reflexivity|exact E]|].
     destruct (update_last_cmid (session, 0%N) (timestamp id un) data cmid sv) as [sv1|] eqn:Hu;
       [|eexists; split; [reflexivity|exact E]].
     destruct (update_last_cmid_EInv _ _ _ _ _ _ E Hu) as (E1 & P1 & Hn1 & Hdom1 & Hsrv1).
